@@ -38,6 +38,8 @@ type PlanCfg struct {
 	Readers func(zctx *zed.Context) ([]zio.Reader, error)
 	// Lake, when set, resolves `from pool` sources.
 	Lake *TLake
+	// Files lets `file <path>` sources read the local file system.
+	Files bool
 	// Hold keeps every pulled batch referenced until the end of the run (aliasing probe).
 	Timeout time.Duration
 }
@@ -102,6 +104,8 @@ func runPlan(cfg PlanCfg) (res PlanResult) {
 		if cfg.Lake != nil {
 			src = data.NewSource(storage.NewRemoteEngine(), cfg.Lake.Root)
 			head = &lakeparse.Commitish{}
+		} else if cfg.Files {
+			src = data.NewSource(storage.NewLocalEngine(), nil)
 		} else {
 			src = data.NewSource(nil, nil)
 		}
